@@ -249,7 +249,7 @@ def run_shard(tmp, k, items, limit, configs, want_bytecode=False):
 def part_outcomes(ctx, tmp):
     rnd = ctx.rng("mut")
     progs = base_programs(ctx)
-    n_mut = 180 if ctx.tier == "quick" else 3000
+    n_mut = 150 if ctx.tier == "quick" else 3000
     items = [{"id": f"base:{n}", "src": s, "how": "unchanged", "base": n} for n, s in progs.items()]
     names = sorted(progs)
     for i in range(n_mut):
@@ -370,7 +370,7 @@ def part_valid(ctx, tmp):
             items.append({"id": f"abi{i}", "files": {"gen.vy": K["src"], "lib0.vy": K["lib"]}, "target": "gen.vy", "how": "c19_gen", "base": f"abi{i}"})
         else:
             items.append({"id": f"abi{i}", "src": K["src"], "how": "c19_gen", "base": f"abi{i}"})
-    for i, (nm, src) in enumerate(nested_programs()):
+    for i, (nm, src) in enumerate(nested_programs(ctx.tier == "quick")):
         items.append({"id": f"nested{i}", "src": src, "how": "nested-containers", "base": nm})
     for i in range(18 if ctx.tier == "quick" else 600):
         items.append({"id": f"valid{i}", "src": c20_valid_gen.gen_program(rnd), "how": "c20_valid_gen", "base": f"valid{i}"})
@@ -393,12 +393,14 @@ ENV_EXPRS = [
 ENV_TYPES = ["Bytes[INF]", "String[INF]", "DynArray[uint256, INF]", "Bytes[2**256]", "String[2**64]", "DynArray[uint256, 2**200]"]
 
 
-def nested_programs():
+def nested_programs(quick=False):
     """deeply nested dynamic containers passed through an internal call and returned in a tuple: the legacy back end runs out
     of DUP-reachable stack (`with` nesting) depending on level / EVM target (no mcopy before cancun)"""
     out = []
     for depth in (3, 4):
         for elem in ("uint256", "Bytes[1]", "String[2]"):
+            if quick and (depth, elem) not in ((3, "Bytes[1]"), (4, "uint256")):
+                continue
             T = elem
             for _ in range(depth):
                 T = f"DynArray[{T}, 1]"
@@ -418,7 +420,7 @@ def part_env_matrix(ctx, tmp):
     for i, t in enumerate(ENV_TYPES):
         items.append({"id": f"envt{i}", "how": "env-matrix", "base": t, "src": f"@external\ndef f_(x: {t}) -> uint256:\n    return 1\n"})
         items.append({"id": f"envs{i}", "how": "env-matrix", "base": "storage " + t, "src": f"x_: {t}\n\n@external\ndef f_() -> uint256:\n    return 1\n"})
-    for i, (nm, src) in enumerate(nested_programs()):
+    for i, (nm, src) in enumerate(nested_programs(ctx.tier == "quick")):
         items.append({"id": f"envn{i}", "how": "env-matrix", "base": nm, "src": src})
     configs = [[v, "gas", e] for v in (False, True) for e in (("london", "shanghai", "cancun", "prague") if ctx.tier == "quick" else ("london", "paris", "shanghai", "cancun", "prague"))]
     nsh = 3
@@ -451,7 +453,7 @@ def part_builtin_matrix(ctx, tmp):
         if b is not None:
             built.append((tpl, h, sh, b))
     n_all = len(built)
-    target = 300 if ctx.tier == "quick" else (n_all if os.environ.get("VERIF_C20_FULL_MATRIX") == "1" else 6000)
+    target = 240 if ctx.tier == "quick" else (n_all if os.environ.get("VERIF_C20_FULL_MATRIX") == "1" else 6000)
     if target < n_all:
         # seeded sample, stratified so that every builtin and every shape occurs (thorough: 6000 of the ~20k programs to stay
         # inside the tier budget; VERIF_C20_FULL_MATRIX=1 runs the whole matrix, ~25 min on 3 cores)
@@ -508,7 +510,7 @@ def part_builtin_matrix(ctx, tmp):
                 res.append(outs)
             if res[0] != res[1]:
                 key = f"C20M:disagree:{it['builtin']}:{it['shape']}"
-                if key not in reported and len(reported) < 12:
+                if key not in reported and len(reported) < 30:
                     reported.add(key)
                     which = 0 if res[0][0] != res[1][0] else 1
                     types, vals = M.calldata(it["params"], which)
@@ -534,7 +536,7 @@ def part_cf_exec(ctx, tmp):
     from vlib.c18_corpus import gen_cf_program
     from vlib.evm import Chain
     rnd = ctx.rng("cfexec")
-    n_word, n_mem = (4, 10) if ctx.tier == "quick" else (30, 120)
+    n_word, n_mem = (3, 7) if ctx.tier == "quick" else (30, 120)
     items = []
     for i in range(n_word):
         items.append({"id": f"cfw{i}", "src": gen_cf_program(rnd), "how": "cf-exec:words", "base": f"cfw{i}"})
